@@ -3,7 +3,7 @@ E2: on every distinct state reached by accepted edits: (i) every report succeeds
 semantics applied to the history (mc.e2.model_apply; a SET of acceptable structures where the documentation leaves the outcome open); (iii) every report
 equals that of a system built from scratch, in canonical order, with that structure."""
 import json
-from ..common import Run, Res, seed
+from ..common import workdir as _wd, cleanup_workdir as _cw, Run, Res, seed
 from .. import e2
 from ..reports import all_reports, diff_reports
 
@@ -64,7 +64,7 @@ def state_check(sd, hist):
         if isinstance(side.get("save"), tuple) and side["save"][0] == "save":
             side["save"] = ("save", json.dumps(json.loads(side["save"][1]), sort_keys=True))
     for rep, d in diff_reports(a, b, 1e-9, 1e-12)[:3]:
-        what = __import__("re").sub(r"^\(.*?\)\s*", "", d).split(":")[0][:40]
+        what = __import__("re").sub(r"^\(.*?\)\s*", "", d).split(":")[0][:40] if isinstance(a.get(rep), dict) else "value"
         v.append(((PROP + ".differs-from-fresh", rep, what, last), "after %r: %s" % (hist[-1] if hist else None, d)))
     return v
 
@@ -90,7 +90,7 @@ def main(tier):
     run.nontrivial = st["states_via_cc"] + st["states_via_dc"]
     run.samples.append({"seed": "mux", "history": [["cc", "A1", "C", "N1", ""], ["dc", "N1", False]], "note": "rename a mux input, then delete it keeping its children"})
     run.require(run.nontrivial > 100, "too few states reached through change/delete")
-    __import__("shutil").rmtree(__import__("os").path.join(__import__("mc.common", fromlist=["VERIF"]).VERIF, ".work"), ignore_errors=True)
+    _cw()
     return run.finish(
         rule="E2: every distinct state (K_full) reached by histories of depth <= %d, budget <= %d from 5 seeds (edit + phase ops, re-adding deleted names, 3-input muxes, and a solve(energy=True) call in the middle of the history)%s; per state: reference edit semantics vs the structure read "
              "from the object (names, kinds, parameters, parent lists with PMux priority order, rails, groups, phase configs, system phases), all 8 reports succeed, and all reports equal "
